@@ -388,6 +388,78 @@ def r19_6(chk, tier):
     chk.require(ctl, 'R19.6 positive control (release() into emplace_back in drivers/control.cpp) not detected')
     chk.ok('R19.6', 'drivers/control.cpp positive control', {'control_found': True, 'library_instances': n})
 
+def r19_7(chk, facts):
+    """What is given back to the allocator is what was taken from it."""
+    chk.rule('R19.7', 'heap string block size: the size helper that heap_string_factory::create uses for allocate() and the one destroy() uses for '
+                      'deallocate() receive the same function of the string length (the same canonical expression once the length is '
+                      'abstracted): a block allocated with one size and released with another is undefined behaviour for sized allocators, and '
+                      'differs exactly for character types wider than one byte', floor=1)
+    fns = {}
+    for f in facts.functions:
+        if f['file'].endswith('utility/heap_string.hpp') and f.get('body') is not None and not f.get('dep') and f['n'] in ('create', 'destroy'):
+            fns.setdefault((f.get('cls'), f['n']), f)
+    classes = sorted(set(c for c, n in fns))
+    n = 0
+    for cls in classes:
+        cr, de = fns.get((cls, 'create')), fns.get((cls, 'destroy'))
+        if cr is None or de is None: continue
+        def shapes(fn):
+            out = {}
+            al = A.pure_aliases(fn['body'])
+            for c in A.calls_in(fn['body'], no_lambda=True):
+                if c.get('k') not in ('CallExpr', 'CXXMemberCallExpr'): continue
+                cal = facts.callee(fn, c)
+                if cal is None or cal.get('cls') != fn.get('cls') or cal['n'] in ('create', 'destroy'): continue
+                def norm(e):
+                    t = A.canon(e, al)
+                    import re as _re
+                    t = _re.sub(r'[A-Za-z_>\-\.\(\)]*length_?\b', 'LEN', t)
+                    return t
+                out.setdefault(cal['n'], set()).add(tuple(norm(a) for a in c.get('args') or []))
+            return out
+        sa, sb = shapes(cr), shapes(de)
+        common = set(sa) & set(sb)
+        if not common: continue
+        n += 1
+        chk.analysed(cr); chk.analysed(de)
+        for h in sorted(common):
+            site = U.site(cr, 'size helper %s' % h)
+            if sa[h] == sb[h]: chk.ok('R19.7', site, {'argument': sorted(sa[h])})
+            else: chk.fail('R19.7', site, cr['file'], cr['l'], 'create() calls %s(%s) for the block it allocates, destroy() calls %s(%s) for the block it releases' % (
+                h, ', '.join(x[0] for x in sorted(sa[h])), h, ', '.join(x[0] for x in sorted(sb[h]))), None, cr['q'])
+        if n >= 2: break
+    chk.require(n >= 1, 'R19.7: heap_string_factory create/destroy with a common size helper not found')
+
+def r19_8(chk, facts):
+    """Allocator-extended constructors use the allocator they are given."""
+    chk.rule('R19.8', 'allocator-extended constructors of the containers (json_array, sorted_json_object, order_preserving_json_object): a constructor '
+                      'that takes an allocator initialises its allocator base with that parameter, and every member that is built with an '
+                      'allocator gets it from the parameter, not from the get_allocator() of the object being copied; otherwise the copy '
+                      'keeps allocating from (and must be freed by) the source allocator', floor=8)
+    n = 0; seen = set()
+    for f in sorted(facts.functions, key=lambda f: bool(f.get('dep'))):
+        if f.get('fk') != 'CXXConstructor' or not f['file'].endswith(('ordered_json_object.hpp', 'sorted_json_object.hpp', 'json_array.hpp')) or not f.get('inits'): continue
+        if (f['file'], f['l']) in seen: continue
+        al = [p for p in f['params'] if 'alloc' in (p['n'] or '')]
+        if not al: continue
+        seen.add((f['file'], f['l']))
+        chk.analysed(f)
+        aid = al[0]['id']
+        for i in f['inits']:
+            e = i.get('init')
+            if e is None: continue
+            uses_param = any(y.get('k') == 'DeclRefExpr' and y.get('id') == aid for y in A.walk(e))
+            foreign = any(y.get('k') in A.CALLS and A.callee_name(y) == 'get_allocator' for y in A.walk(e))
+            is_base = i.get('m') is None
+            if not (is_base or uses_param or foreign): continue
+            n += 1
+            site = U.site(f, 'ctor@%s %s' % (f['l'], i.get('m') or 'allocator base'))
+            if (uses_param or not is_base) and not foreign and (uses_param or not is_base): chk.ok('R19.8', site, None)
+            else:
+                chk.fail('R19.8', site, f['file'], f['l'], 'the allocator-extended constructor at line %s initialises %s with `%s` instead of its `%s` parameter' % (
+                    f['l'], i.get('m') or 'its allocator base', A.canon(e)[:60], al[0]['n']), None, f['q'])
+    chk.require(n >= 8, 'R19.8: only %d allocator initialisations found in the container constructors' % n)
+
 def run(chk, tier, only_rule=None):
     chk.explanation = EXPLANATION
     chk.not_decided = NOT_DECIDED
@@ -396,6 +468,8 @@ def run(chk, tier, only_rule=None):
     r19_1(chk, facts)
     r19_2(chk, facts)
     r19_3(chk, facts)
+    r19_7(chk, facts)
+    r19_8(chk, facts)
     r19_6(chk, tier)
     r19_4(chk, tier)
     from . import c15
